@@ -136,9 +136,8 @@ def _m_update_consumers_own_txn():
         if not consumers:
             return
         ctx = consumers[0]._context
-        mgr = db_api.placement_context_manager
-        with mgr.writer.independent.using(ctx):
-            orig(consumers, request_attrs)
+        orig(consumers, request_attrs)
+        ctx.session.commit()
     u.update_consumers = update_consumers
     from placement.handlers import allocation as h
     h.data_util.update_consumers = update_consumers
@@ -241,9 +240,8 @@ def _m_reshape_commits_interim():
     src = inspect.getsource(r.reshape)
     src2 = src.replace(
         "        rp.set_inventory(list(inv_by_rc.values()))\n",
-        "        with db_api.placement_context_manager.writer.independent"
-        ".using(ctx):\n"
-        "            rp.set_inventory(list(inv_by_rc.values()))\n", 1)
+        "        rp.set_inventory(list(inv_by_rc.values()))\n"
+        "        ctx.session.commit()\n", 1)
     assert src2 != src
     ns = {}
     exec(compile(textwrap.dedent(src2), r.__file__, 'exec'), r.__dict__, ns)
@@ -258,7 +256,7 @@ def _m_limit_plus_one():
 
     def limit_results(self, alloc_request_objs, summary_objs):
         lim = self._limit
-        if lim is not None:
+        if isinstance(lim, int) and lim:
             self._limit = lim + 1
         try:
             return orig(self, alloc_request_objs, summary_objs)
@@ -278,11 +276,9 @@ def _m_alloc_post_partial():
             by_c.setdefault(al.consumer.uuid, []).append(al)
         if len(by_c) <= 1:
             return orig(context, alloc_list)
-        from placement import db_api
         for c, lst in by_c.items():
-            with db_api.placement_context_manager.writer.independent.using(
-                    context):
-                orig(context, lst)
+            orig(context, lst)
+            context.session.commit()
     a.replace_all = replace_all
     from placement.handlers import allocation as h
     h.alloc_obj.replace_all = replace_all
